@@ -161,6 +161,32 @@ def build_target(name):
     raise KeyError(name)
 
 
+def real_names(objs, options, args=(), debug=False):
+    """Module and object names exactly as compile_forms / compile_expressions compute them (the cache lookup is intercepted)."""
+    import ffcx.codegeneration.jit as jit
+
+    class Stop(Exception):
+        pass
+
+    cap = {}
+    orig = jit.get_cached_module
+
+    def fake(module_name, object_names, cache_dir, timeout):
+        cap["module"] = module_name
+        cap["objects"] = list(object_names)
+        raise Stop()
+
+    jit.get_cached_module = fake
+    try:
+        fn = jit.compile_expressions if isinstance(objs[0], tuple) else jit.compile_forms
+        fn(list(objs), options=dict(options or {}), cache_dir="/nonexistent-ffcx-verif", cffi_extra_compile_args=list(args), cffi_debug=debug)
+    except Stop:
+        pass
+    finally:
+        jit.get_cached_module = orig
+    return cap
+
+
 def child_main(job):
     import ffcx.compiler
     import ffcx.naming
@@ -180,16 +206,7 @@ def child_main(job):
         if job.get("keep_text"):
             rec["text"] = text
         if job.get("names"):
-            import ffcx.codegeneration.jit as jit
-
-            p = opts
-            tag = jit._compute_option_signature(p) + jit._compilation_signature([], False)
-            sig = ffcx.naming.compute_signature([obj], tag)
-            rec["module"] = ("libffcx_expressions_" if isinstance(obj, tuple) else "libffcx_forms_") + sig
-            if isinstance(obj, tuple):
-                rec["objects"] = [ffcx.naming.expression_name(obj, rec["module"])]
-            else:
-                rec["objects"] = [ffcx.naming.form_name(obj, 0, rec["module"])]
+            rec.update(real_names([obj], {"sum_factorization": True} if name == "sumfact-hex" else (job.get("options") or {})))
         out[name] = rec
     sys.stdout.write("HIST-RESULT " + json.dumps(out) + "\n")
 
@@ -197,7 +214,7 @@ def child_main(job):
 # ---------------------------------------------------------------------------------------------------
 # parent side
 # ---------------------------------------------------------------------------------------------------
-def run_history(history, hashseed, targets, options=None, names=False, keep_text=False, timeout=900):
+def run_history(history, hashseed, targets, options=None, names=False, keep_text=False, timeout=900, config=None, user_config=None):
     base = "/dev/shm" if os.path.isdir("/dev/shm") else None
     d = tempfile.mkdtemp(prefix="hist_", dir=base)
     try:
@@ -206,6 +223,13 @@ def run_history(history, hashseed, targets, options=None, names=False, keep_text
         env["XDG_CONFIG_HOME"] = os.path.join(d, "xdg")
         env["HOME"] = d
         job = dict(history=list(history), targets=list(targets), scratch=d, options=options, names=names, keep_text=keep_text)
+        if config is not None:
+            with open(os.path.join(d, "ffcx_options.json"), "w") as f:
+                json.dump(config, f)
+        if user_config is not None:
+            os.makedirs(os.path.join(d, "xdg", "ffcx"))
+            with open(os.path.join(d, "xdg", "ffcx", "ffcx_options.json"), "w") as f:
+                json.dump(user_config, f)
         verif = os.path.dirname(os.path.dirname(os.path.abspath(__file__)))
         env["PYTHONPATH"] = verif + (os.pathsep + env["PYTHONPATH"] if env.get("PYTHONPATH") else "")
         r = subprocess.run([sys.executable, "-m", "mc.hist", json.dumps(job)], capture_output=True, text=True, env=env, cwd=d, timeout=timeout)
